@@ -1,0 +1,98 @@
+//! Verification hooks (compiled only with `--cfg rssched_verif`; off by default).
+//!
+//! * `stage(..)`: snapshots after each pipeline stage of `solve_instance`, pushed into a
+//!   thread-local recorder if one is armed; also a cooperative yield point for a simulator.
+//! * `offer_router(..)`: lets a simulator take the real `axum::Router` built by `main`
+//!   instead of binding a socket.
+
+use std::cell::RefCell;
+use std::sync::Arc;
+
+use im::HashMap;
+use model::base_types::VehicleTypeIdx;
+use model::network::Network;
+use solution::transition::Transition;
+use solution::Schedule;
+
+pub enum Stage {
+    Loaded(Arc<Network>),
+    StartSchedule(Schedule),
+    LocalSearchResult(Schedule),
+    OptimizedTransitions(HashMap<VehicleTypeIdx, Transition>),
+    ScheduleWithOptimizedTransitions(Schedule),
+    FinalSchedule(Schedule),
+}
+
+impl Stage {
+    pub fn tag(&self) -> &'static str {
+        match self {
+            Stage::Loaded(_) => "loaded",
+            Stage::StartSchedule(_) => "start",
+            Stage::LocalSearchResult(_) => "local_search",
+            Stage::OptimizedTransitions(_) => "optimized_transitions",
+            Stage::ScheduleWithOptimizedTransitions(_) => "with_optimized_transitions",
+            Stage::FinalSchedule(_) => "final",
+        }
+    }
+}
+
+type YieldFn = Box<dyn FnMut(&'static str)>;
+
+thread_local! {
+    static RECORDER: RefCell<Option<Vec<Stage>>> = const { RefCell::new(None) };
+    static YIELD: RefCell<Option<YieldFn>> = const { RefCell::new(None) };
+    static ROUTER_SLOT: RefCell<Option<Option<axum::Router>>> = const { RefCell::new(None) };
+}
+
+pub fn arm() {
+    RECORDER.with(|r| *r.borrow_mut() = Some(Vec::new()));
+}
+
+pub fn take() -> Vec<Stage> {
+    RECORDER.with(|r| r.borrow_mut().take().unwrap_or_default())
+}
+
+pub fn set_yield(f: Option<YieldFn>) {
+    YIELD.with(|y| *y.borrow_mut() = f);
+}
+
+pub fn stage(s: Stage) {
+    let tag = s.tag();
+    RECORDER.with(|r| {
+        if let Some(stages) = r.borrow_mut().as_mut() {
+            stages.push(s);
+        }
+    });
+    let f = YIELD.with(|y| y.borrow_mut().take());
+    if let Some(mut f) = f {
+        f(tag);
+        YIELD.with(|y| {
+            let mut slot = y.borrow_mut();
+            if slot.is_none() {
+                *slot = Some(f);
+            }
+        });
+    }
+}
+
+pub fn arm_router() {
+    ROUTER_SLOT.with(|r| *r.borrow_mut() = Some(None));
+}
+
+/// returns true if a simulator took the router (the caller then must not bind a socket)
+pub fn offer_router(app: &axum::Router) -> bool {
+    ROUTER_SLOT.with(|r| {
+        let mut slot = r.borrow_mut();
+        match slot.as_mut() {
+            Some(inner) => {
+                *inner = Some(app.clone());
+                true
+            }
+            None => false,
+        }
+    })
+}
+
+pub fn take_router() -> Option<axum::Router> {
+    ROUTER_SLOT.with(|r| r.borrow_mut().take().flatten())
+}
